@@ -4,21 +4,22 @@
 //! It does nothing unless a hook function was installed with `set_hook`.
 //! The hook runs on the calling OS thread and must not call back into may.
 
-use std::sync::atomic::{AtomicUsize, Ordering};
+use std::sync::atomic::{AtomicPtr, Ordering};
 
 pub type Hook = fn(site: u32, obj: usize);
 
-static HOOK: AtomicUsize = AtomicUsize::new(0);
+// kept as a pointer (not an integer) so that Miri can follow its provenance
+static HOOK: AtomicPtr<()> = AtomicPtr::new(std::ptr::null_mut());
 
 pub fn set_hook(h: Hook) {
-    HOOK.store(h as usize, Ordering::SeqCst);
+    HOOK.store(h as *mut (), Ordering::SeqCst);
 }
 
 #[inline]
 pub fn point(site: u32, obj: usize) {
     let h = HOOK.load(Ordering::Relaxed);
-    if h != 0 {
-        let f: Hook = unsafe { std::mem::transmute::<usize, Hook>(h) };
+    if !h.is_null() {
+        let f: Hook = unsafe { std::mem::transmute::<*mut (), Hook>(h) };
         f(site, obj);
     }
 }
